@@ -42,7 +42,11 @@ def host_of(result):
     except ValueError:
         # unbalanced brackets in the authority: the result is the unparseable input passed through, it has no host
         return None
-    return refurl.split_authority(s["authority"] or "")[2] or None
+    h = refurl.split_authority(s["authority"] or "")[2] or None
+    # the helpers answer like the standard parser's .hostname: an IP literal without its brackets
+    if h and h.startswith("[") and h.endswith("]"):
+        h = h[1:-1]
+    return h
 
 
 def val(r):
@@ -57,6 +61,9 @@ def check_url(u, o, fails, tags):
     f = core.guarded(m.fingerprint_url, u, strip_suffix=ss)
     c = core.guarded(m.canonicalize_url, u)
     if n[0] == "ok":
+        ns = core.guarded(m.normalize_url, u, unsplit=False, normalize_amp=na, infer_redirection=ir)
+        passthrough = ns[0] == "ok" and isinstance(ns[1], str)  # the url could not be parsed and was handed back
+    if n[0] == "ok" and not passthrough:
         tags.append("normalized")
         gh = core.guarded(m.get_normalized_hostname, u, normalize_amp=na, infer_redirection=ir)
         exp = host_of(n[1])
